@@ -34,6 +34,13 @@ pub enum H {
     SpawnJobOnly { stride: u64 },
     /// run the oldest job that was spawned by `SpawnJobOnly` and not run yet (jobs may overlap)
     RunOldestJob,
+    /// an auto compaction whose job FAILS after it was spawned (the artifact store is a regular
+    /// file while it runs, and is restored afterwards)
+    FailingAuto { stride: u64 },
+    /// manual checkpoint at the last message that names an EXISTING summary artifact instead of
+    /// text: 0 = the summary of this thread's first checkpoint (another to_seq unless it is the
+    /// same cut), 1 = a summary written for ANOTHER thread at the same to_seq
+    CkptReuse(u8),
     Branch(u8),
     Handoff(u8),
     Restart,
@@ -56,6 +63,8 @@ pub fn name(op: &H) -> String {
         H::Sched { stride, max_new, block, execute, dry } => format!("sched(s={stride},n={max_new},block={block},exec={execute},dry={dry})"),
         H::SpawnJobOnly { stride } => format!("spawn_job_only(s={stride})"),
         H::RunOldestJob => "run_oldest_job".into(),
+        H::FailingAuto { stride } => format!("failing_auto(s={stride})"),
+        H::CkptReuse(k) => format!("ckpt_reuse{k}"),
         H::Branch(k) => format!("branch{k}"),
         H::Handoff(k) => format!("handoff{k}"),
         H::Restart => "restart".into(),
@@ -204,6 +213,62 @@ pub fn apply(fx: &mut Fx, t: &mut Track, op: &H) -> Value {
                 let job = t.pending_jobs.remove(0);
                 let created = store.verif_compaction_auto_run_spawned_job(&thread, &job)?;
                 Ok(json!({"job_id": job.job_id, "created": serde_json::to_value(created).unwrap_or(Value::Null)}))
+            }
+            H::FailingAuto { stride } => {
+                let art = fx.root.join(".rip/artifacts");
+                let held = fx.root.join(".rip/artifacts.held");
+                let had = art.is_dir();
+                if had {
+                    std::fs::rename(&art, &held).map_err(|e| e.to_string())?;
+                }
+                let _ = std::fs::create_dir_all(fx.root.join(".rip"));
+                std::fs::write(&art, "not a directory").map_err(|e| e.to_string())?;
+                let r = store.compaction_auto_v1(&thread, CompactionAutoV1Request { stride_messages: Some(*stride), max_new_checkpoints: Some(1), dry_run: Some(false), actor_id: "u".into(), origin: "o".into() });
+                let _ = std::fs::remove_file(&art);
+                if had {
+                    std::fs::rename(&held, &art).map_err(|e| e.to_string())?;
+                }
+                match r {
+                    Ok(r) => Ok(serde_json::to_value(r).unwrap_or(Value::Null)),
+                    Err(e) => Ok(json!({"auto_failed": e})),
+                }
+            }
+            H::CkptReuse(k) => {
+                let events = thread_events(fx, &thread);
+                let msgs = messages(&events);
+                let Some((last_seq, last_id)) = msgs.last().cloned() else { return Ok(json!({"skipped": "no message"})) };
+                let artifact = match k {
+                    0 => events.iter().find_map(|e| match &e.kind {
+                        EventKind::ContinuityCompactionCheckpointCreated { summary_artifact_id, .. } => Some(summary_artifact_id.clone()),
+                        _ => None,
+                    }),
+                    _ => {
+                        // another thread with a message at the same seq, summarised there
+                        let (other, _, _) = store.handoff(&thread, None, (Some("carrier".into()), None), None, None, ("u".into(), "o".into()))?;
+                        let mut at = None;
+                        for _ in 0..(last_seq + 2) {
+                            let id = store.append_message(&other, "u".into(), "o".into(), "x".into())?;
+                            let seq = fx.truth(StreamKind::Continuity, &other).iter().find(|e| e.id == id).map(|e| e.seq);
+                            if seq == Some(last_seq) {
+                                at = Some(id);
+                                break;
+                            }
+                            if seq.map(|s| s > last_seq).unwrap_or(true) {
+                                break;
+                            }
+                        }
+                        match at {
+                            Some(_) => store
+                                .compaction_checkpoint_cumulative_v1(&other, CompactionCheckpointCumulativeV1Request { summary_markdown: Some("other thread".into()), summary_artifact_id: None, to_message_id: None, to_seq: Some(last_seq), stride_messages: None, actor_id: "u".into(), origin: "o".into() })
+                                .ok()
+                                .map(|r| r.1),
+                            None => None,
+                        }
+                    }
+                };
+                let Some(artifact) = artifact else { return Ok(json!({"skipped": "no summary to reuse"})) };
+                let r = store.compaction_checkpoint_cumulative_v1(&thread, CompactionCheckpointCumulativeV1Request { summary_markdown: None, summary_artifact_id: Some(artifact.clone()), to_message_id: Some(last_id), to_seq: None, stride_messages: None, actor_id: "u".into(), origin: "o".into() })?;
+                Ok(json!({"checkpoint_id": r.0, "summary_artifact_id": r.1, "to_seq": r.2, "reused": artifact}))
             }
             H::Branch(k) => {
                 let events = thread_events(fx, &thread);
